@@ -20,12 +20,13 @@ ENGINE_NOTE = ('Bounded: TLC constants are listed in the evidence; conformance c
 CLAIMED = {
     'C01': ('5/C01', ENGINE_TEXT % 'exactly-once / on-time / ledger clauses', ENGINE_NOTE, TECH),
     'C02': ('5/C02', ENGINE_TEXT % 'handed-timestep = interval-length, contiguity and completion-after-update() clauses', ENGINE_NOTE, TECH),
-    'C03': ('5/C03', ENGINE_TEXT % 'monotone clock, exact landing, progress and termination (liveness under weak fairness) clauses', ENGINE_NOTE, TECH),
+    'C03': ('5/C03', ENGINE_TEXT % 'monotone clock, exact landing, progress and termination (liveness under weak fairness) clauses' +
+            ' Clock.tla abstracts the time rules to unbounded integer times and timesteps (three processes): Apalache discharges its inductive invariant and, from it, no overshoot, monotonicity, progress of every iteration, timestep = interval and application on time; the same invariant is a TLC invariant of Engine.tla at the loop head (C03_ClockIndInv).', ENGINE_NOTE + ' Clock.tla is tied to Engine.tla by the shared invariant, not by a refinement proof.', TECH + ' + Apalache inductive invariant of the abstracted time rules'),
     'C04': ('5/C04', ENGINE_TEXT % 'one-snapshot-per-poll-pass / per-layer clauses' +
             ' In addition every scenario is re-run under permutations of the listing order of processes, flow steps, variables and initial-state keys; each permuted run must be accepted and deliver identical rows.', ENGINE_NOTE, TECH),
-    'C05': ('5/C05', 'TLC checks the step-phase clauses of Engine.tla from every initial flow (all DAGs over 3-4 steps x deriver orderings); one real engine per flow is run and its step/apply records validated against EngineTrace.tla.', ENGINE_NOTE, TECH),
+    'C05': ('5/C05', 'TLC checks the step-phase clauses of Engine.tla from every initial flow (all DAGs over 3-4 steps x deriver orderings); one real engine per flow is run and its step/apply records validated against EngineTrace.tla. Store histories in which a step issues the structural operations are validated by StoreTrace.tla: what every step saw of its upstream step, the view of a step in the next layer, and that the ordinary update of a step later in the layer of a structural one is applied (rule bystander).', ENGINE_NOTE, TECH),
     'C12': ('5/C12', ENGINE_TEXT % 'row timing (after steps, at now, one per batch / per passed deadline) clauses' +
-            ' Row content is compared with the committed state reconstructed from the apply records.', ENGINE_NOTE, TECH),
+            ' Row content is compared with the committed state reconstructed from the apply records. Rows with units and custom serializers, chunked rows and branch-level emit flags (store_schema and Store.set_emit_values over schema-less, nested and later-added variables) are compared with what the hierarchy holds.', ENGINE_NOTE, TECH),
 }
 
 TABLE_NOTE = ('Bounded small-scope domain (constants in the evidence); the abstract values are '
@@ -34,7 +35,7 @@ TABLE_NOTE = ('Bounded small-scope domain (constants in the evidence); the abstr
 EXTRA = {
     'C06': ('5/C06', 'Topology.tla defines one resolution function R from (process location, port kind, topology entry, variable) to a hierarchy node for leaf/branch/nested/glob/output ports and path / _path-dictionary topologies; TLC enumerates every well-formed combination and exports R; one real Engine per case: the view must show exactly the values of the nodes R names and after one update exactly those nodes changed, by the sum of the amounts of the variables wired to them; every case also with updates that name their updater and with an updater that keeps every (mostly falsy) update it receives; in addition the views of a sample of structural histories are validated by StoreTrace.tla (rules view / zview). Colliding dictionary-valued updates are a recorded finding (known_findings.jsonl).', TABLE_NOTE, TECH_TABLE),
     'C11': ('5/C11', 'Dividers.tla defines every divider as a relation between the mother value and the admissible daughter pairs and states the promised laws (totals conserved, even split, copies, zeros, key partition); TLC checks the laws for all values 0..8 / key sets and exports the relation; real compartments are divided by a real engine (depth 1-2, explicit daughter state, null/no_divide, branch-level and topology/config dividers, float and quantity carriers, two generations, mutable values) and the observed daughters must lie in the relation and be independent afterwards.', TABLE_NOTE, 'TLA+ specification of the divider relations + TLC law checking + validation of observed implementation outcomes against the TLC-computed relation'),
-    'C13': ('5/C13', 'Parallel.tla specifies the command protocol between the engine and the OS worker of a parallel process (send / receive / end with draining / join); TLC checks that a command is never sent while one is pending, nothing is used after its end, end() always terminates and leaves the worker exited, and that the pinned end() violates this. Protocol scenarios (delete / divide / move of a subtree whose parallel process is idle, due in the same batch or has an update in flight; an exception aborting an update; end() once, twice or never before garbage collection) are recorded through guarded hooks in ParallelProcess and validated, with the observed sets of live OS workers, by ParallelTrace.tla. Serial-vs-parallel differential runs compare rows, final state, front and process paths.', 'OS-level behaviour (worker alive / reaped) is observed, not modelled; hangs are detected by a 60 s watchdog; bounded scenario families (seeded).', TECH),
+    'C13': ('5/C13', 'Parallel.tla specifies the command protocol between the engine and the OS worker of a parallel process (send / receive / end with draining / join); TLC checks that a command is never sent while one is pending, nothing is used after its end, end() always terminates and leaves the worker exited, and that the pinned end() violates this. Protocol scenarios (delete / divide / move of a subtree whose parallel process is idle, due in the same batch or has an update in flight; an exception aborting an update; end() once, twice or never before garbage collection) are recorded through guarded hooks in ParallelProcess and validated, with the observed sets of live OS workers, by ParallelTrace.tla. Every protocol scenario is run again with serial processes and the values of the whole hierarchy (including a store outside the compartments that the compartment processes write to) are compared after every update. Serial-vs-parallel differential runs compare rows, final state, front and process paths.', 'OS-level behaviour (worker alive / reaped) is observed, not modelled; hangs are detected by a 60 s watchdog; bounded scenario families (seeded).', TECH),
     'C14': ('5/C14', 'Serialize.tla defines serialize/deserialize over abstract value trees (13 leaf classes, list/tuple/set/dict/non-string-key containers) and TLC checks: TypeError exactly for unsupported values and non-string keys, plain output, idempotence, round trip to the canonical form, plain data unchanged; every tree is bound to concrete witnesses and run through serialize_value/deserialize_value, the result abstracted back and compared.', 'TLA+ has no floats: the specification decides dispatch and structure of the codec; fidelity of magnitudes is exercised at a catalogue of witnesses (0, -1.5, 1e300, 5e-324, 2^53-1, nan, +-inf; g, mg/L, fL, mmol/L**2), not for all floats.', TECH_TABLE),
     'C15': ('5/C15', 'InitState.tla (on Topology.tla) gives, for every case and every subset of nodes named in the initial state, the value every declared node must hold (explicit or default), and classifies pairs of declarations of one variable as compatible or not; each is executed through Engine, generate_state, Composite.initial_state/default_state/generate_store.', TABLE_NOTE, TECH_TABLE),
     'C07': ('5/C07', 'Store.tla specifies the hierarchy under structural updates; every tick of every enumerated/random structural history is projected and validated by StoreTrace.tla, including what the director (glob ports on both branches) and an observer (glob port restricted to one declared sub-variable, plain port, output port) saw at the start of the tick; in addition every Topology.tla case is checked for the exact shape of the states dictionary.', 'Bounded: Store.tla constants in the evidence; all timesteps 1 and the director listed first; projection code (vv/store_run.py) is trusted.', TECH),
@@ -43,7 +44,7 @@ EXTRA = {
     'C08': ('5/C08', 'Updaters.tla defines each updater, overrides, batches (left fold), _multi_update, merge, dict_value and unit handling; TLC checks the algebraic laws on every enumerated case and exports the expected results; each case is executed through Store.apply_update with int/float/numpy/quantity carriers, also checking that unmentioned variables and the update object are untouched.', TABLE_NOTE, TECH_TABLE),
     'C18': ('5/C18', 'Timeseries.tla defines raw data, the embedded and path timeseries and query results over value atoms that include the falsy values and quantities; TLC checks alignment / read-back / query-completeness laws on every enumerated history and exports the expected views; each history is pushed through a real RAMEmitter and get_data(query), get_data_deserialized, get_data_unitless, get_timeseries, get_path_timeseries and the *_from_data converters are compared.', TABLE_NOTE, TECH_TABLE),
     'C19': ('5/C19', 'Timeline.tla is a behavioural specification of the timeline process (events fire at the first tick whose clock reached them, exactly once, merged in time order); TLC checks on-time/exactly-once/order-freeness over every timeline (all listing orders) x timestep x run length, ties the behaviours to the exported row table (RowsAgree), and every run is executed in a real Engine (TimelineProcess wired by hand and through add_timeline) and compared row by row.', TABLE_NOTE, 'TLA+ behavioural specification + TLC model checking + replay of every TLC-computed behaviour into the implementation'),
-    'C16': ('5/C16', 'Composite.tla specifies generate-at-a-path and merge (composite or loose parts, with a path) over a heap of composite objects; TLC checks that a merge changes only its target, equals the union under the path (later entries winning) and that generated composites lie under their path; merge histories are executed on real Composite objects, every object is projected after every action and the trace is validated by CompositeTrace.tla; on top, Engine(composite=...), Engine(processes=..., ...) and Engine(store=generate_store()) are run for every embedding path and merge variant and must emit identical data (equal up to the path prefix for embedded composites), and schema overrides (nested, not leaking into the composer) / MetaComposer / steps listed among the processes are exercised. A process that defines initial_state() starts differently through generate_store(): recorded finding (known_findings.jsonl).', 'Bounded histories (constants in the evidence); equality of the emitted data across entry points is compared by the harness.', TECH),
+    'C16': ('5/C16', 'Composite.tla specifies generate-at-a-path and merge (composite or loose parts, with a path) over a heap of composite objects; TLC checks that a merge changes only its target, equals the union under the path (later entries winning) and that generated composites lie under their path; merge histories are executed on real Composite objects, every object is projected after every action and the trace is validated by CompositeTrace.tla (the histories include Run: an engine built from a composite that has a state, with an engine initial state naming the same stores, leaves every object as it was); on top, Engine(composite=...), Engine(processes=..., ...) and Engine(store=generate_store()) are run for every embedding path and merge variant and must emit identical data (equal up to the path prefix for embedded composites), and schema overrides (nested, not leaking into the composer) / MetaComposer / steps listed among the processes are exercised. A process that defines initial_state() starts differently through generate_store(): recorded finding (known_findings.jsonl).', 'Bounded histories (constants in the evidence); equality of the emitted data across entry points is compared by the harness.', TECH),
     'C17': ('5/C17', 'Paths.tla defines lexical normalisation, tree navigation, path_to/path_for and the dictionary-path helpers; TLC checks the path laws on every tree x start node x path (and dictionary x path) within the bound and exports the expected results; every row is executed against Store.get_path/path_to/path_for/top, normalize_path, get_in/assoc_path/assoc_in/delete_in/update_in/dict_to_paths/paths_to_dict/hierarchy_depth.', TABLE_NOTE, TECH_TABLE),
 }
 
